@@ -28,7 +28,9 @@ NICKS = ["Axi", " Axi ", "A B", "0123456789abcdef", "", "   ", "x",
          "Sherry", "BERRY-2", "error", "Err",
          # names made of the protocol's own vocabulary: the product name and its abbreviation
          # (the version banner contains them), a banner, an acknowledgement, command names
-         "EBB-2", "MyEBB", "EiBotBoard", "EBBv13 Firmware", "OK", "ST", "QT,Axi", "v"]
+         "EBB-2", "MyEBB", "EiBotBoard", "EBBv13 Firmware", "OK", "ST", "QT,Axi", "v",
+         # names that read like the programming language's own "nothing" / numbers
+         "None", "\tNone ", "none", "null", "False", "True", "0", "nan", "-1", "0x1F"]
 
 
 def clamp(res):
@@ -207,6 +209,14 @@ def check_nickname(prior, written):
     elif obj.name != want:
         out.append(("nick_read", f"{desc} then query_nickname(): name={obj.name!r}, expected "
                     f"{want!r}"))
+    # ... and read by somebody else: a second object attached to the same board (a new session)
+    other, _port2, _board2 = new_object(board=board)
+    other.name = None
+    _ret, exc = call(other, "query_nickname", ())
+    if exc is not None or other.err is not None or (other.name or "") != want:
+        out.append(("nick_read_other", f"{desc}, then a second object on the same board calls "
+                    f"query_nickname(): name={other.name!r} exc={exc!r} err={other.err!r}, "
+                    f"expected {want!r}"))
     return out
 
 
